@@ -12,7 +12,7 @@ use std::fmt::Write as _;
 use std::path::{Path, PathBuf};
 use std::process::Command;
 
-pub const RULE: &str = "Domain: generated programs. ok-crate: N = 1200 | 5000 invocations of langid! lang! script! region! variant! locale! (single literal) and langids! langid_slice! locales! (2-4 literals, every fifth list 8-40 literals, one list of 130-300 literals per list macro, with and without trailing comma; single literals are followed by their one-character neighbours) on literals the reference model classifies as well-formed, spelled as plain, raw (r\"..\", r#\"..\"#) or escaped (\\x.., \\u{..}) string literals (proptest grammar strategies with random case / separator masks, und, every extension shape and order incl. tfields followed by -u-/-x-, duplicated and unsorted variants, boundary lengths), invoked by path, by bare imported name, inside a closure passed to a generic function, or - for the forms the crate documents as const-usable - as the initialiser of a const / static item, through a macro_rules wrapper that holds two invocations, or inside a module that declares its own Vec / String / Result / ... types; the ok-crate is built and run with features macros and again with macros + likelysubtags; each invocation is compared at run time with parsing the same literal (==, to_string, hash, per element for lists) inside catch_unwind. bad-crate: M = 800 | 3000 invocations, one per function, on literals the reference puts in must-reject (near-miss mutations, wrong lengths / character classes, foreign and repeated singletons, non-ASCII look-alikes, the empty string, well-formed literals padded with ASCII / Unicode whitespace or control characters or with one letter replaced by a character that case-folds to ASCII; either-zone literals are never used), built with cargo check --message-format=json; list macros get exactly one ill-formed element. Oracle: the ok-crate compiles (a compile error is mapped through the expansion chain to its invocation, reported, the invocation removed and the crate rebuilt) and every comparison is equal with no run-time panic; in the bad-crate the set of invocations carrying an error equals the set of all invocations. Non-trivial (ok) = literal with an extension, non-canonical case or separator, und, >= 2 variants or a list macro; every bad invocation counts. Distinct = hash set over (macro, literals).";
+pub const RULE: &str = "Domain: generated programs. ok-crate: N = 1200 | 5000 invocations of langid! lang! script! region! variant! locale! (single literal) and langids! langid_slice! locales! (2-4 literals, every fifth list 8-40 literals, one list of 130-300 literals per list macro, with and without trailing comma; single literals are followed by their one-character neighbours) on literals the reference model classifies as well-formed, spelled as plain, raw (r\"..\", r#\"..\"#) or escaped (\\x.., \\u{..}) string literals (proptest grammar strategies with random case / separator masks, und, every extension shape and order incl. tfields followed by -u-/-x-, duplicated and unsorted variants, boundary lengths), invoked by path, by bare imported name, inside a closure passed to a generic function, or - for the forms the crate documents as const-usable - as the initialiser of a const / static item, through a macro_rules wrapper that holds two invocations, or inside a module that declares its own Vec / String / Result / ... types; the ok-crate is built and run with features macros and again with macros + likelysubtags + serde; each invocation is compared at run time with parsing the same literal (==, to_string, hash, per element for lists) inside catch_unwind. bad-crate: M = 800 | 3000 invocations, one per function, on literals the reference puts in must-reject (near-miss mutations, wrong lengths / character classes, foreign and repeated singletons, non-ASCII look-alikes, the empty string, well-formed literals padded with ASCII / Unicode whitespace or control characters or with one letter replaced by a character that case-folds to ASCII; either-zone literals are never used), built with cargo check --message-format=json; list macros get exactly one ill-formed element. Oracle: the ok-crate compiles (a compile error is mapped through the expansion chain to its invocation, reported, the invocation removed and the crate rebuilt) and every comparison is equal with no run-time panic; in the bad-crate the set of invocations carrying an error equals the set of all invocations. Non-trivial (ok) = literal with an extension, non-canonical case or separator, und, >= 2 variants or a list macro; every bad invocation counts. Distinct = hash set over (macro, literals).";
 
 #[derive(Clone, Debug, PartialEq, Eq, Hash)]
 pub struct MCase {
@@ -458,18 +458,18 @@ pub fn evaluate(cfg: &Cfg, tag: &str, cases: &[MCase]) -> Result<Vec<Option<Outc
             // feature-gated difference in the parser separates the macro's answer from the run-time one
             let dir2 = base.join(format!("{tag}-okl"));
             let em = emit(&live, 250);
-            write_crate_with(&dir2, "c16okl", &cfg.repo, &em, "\"macros\", \"likelysubtags\"")?;
+            write_crate_with(&dir2, "c16okl", &cfg.repo, &em, "\"macros\", \"likelysubtags\", \"serde\"")?;
             let co = cargo(&dir2, &target, "build")?;
             if !co.success {
                 for (f, line, msg) in &co.errors {
                     if let Some(i) = case_at(&em.lines, f, *line) {
                         if matches!(out[i], Some(Outcome::Equal)) {
-                            out[i] = Some(Outcome::CompileError(format!("[features macros + likelysubtags] {msg}")));
+                            out[i] = Some(Outcome::CompileError(format!("[features macros + likelysubtags + serde] {msg}")));
                         }
                     }
                 }
                 if co.errors.is_empty() {
-                    return Err(format!("the ok-crate does not build with macros + likelysubtags and no error is located in it: {} | {}", co.stray.join(" | "), co.stderr_tail));
+                    return Err(format!("the ok-crate does not build with macros + likelysubtags + serde and no error is located in it: {} | {}", co.stray.join(" | "), co.stderr_tail));
                 }
             } else {
                 let exe = target.join("debug").join("c16okl");
@@ -483,7 +483,7 @@ pub fn evaluate(cfg: &Cfg, tag: &str, cases: &[MCase]) -> Result<Vec<Option<Outc
                     let kind = it.next().unwrap_or("");
                     let rest = it.next().unwrap_or("").to_string();
                     if i < out.len() && kind != "OK" && matches!(out[i], Some(Outcome::Equal)) {
-                        out[i] = Some(if kind == "DIFF" { Outcome::Differs(format!("[features macros + likelysubtags] {rest}")) } else { Outcome::Panics(format!("[features macros + likelysubtags] {rest}")) });
+                        out[i] = Some(if kind == "DIFF" { Outcome::Differs(format!("[features macros + likelysubtags + serde] {rest}")) } else { Outcome::Panics(format!("[features macros + likelysubtags + serde] {rest}")) });
                     }
                 }
             }
